@@ -111,7 +111,10 @@ def run_case(case):
     entered = False
     inp = None
     try:
-        inp = ci.Input(in_stream=stream, keynames="bytes", paste_threshold=threshold, sigint_event=sigint_event)
+        keynames = case.get("keynames", "bytes")
+        inp = ci.Input(in_stream=stream, keynames=keynames, paste_threshold=threshold, sigint_event=sigint_event)
+        if keynames != "bytes":
+            res.label("keynames_" + keynames)
         ntrig = case.get("triggers", {"plain": 2, "threadsafe": 2, "scheduled": 2})
         counters = {"plain": [0] * 4, "ts": [0] * 4}
         plain_cbs = [inp.event_trigger(lambda n, i=i: Ev("plain", i, n)) for i in range(ntrig.get("plain", 2))]
@@ -277,6 +280,26 @@ def run_case(case):
                     model.sigints -= 1
                     res.label("sigint_delivered")
                     return out
+                if keynames != "bytes" and (isinstance(out, str) or isinstance(out, events.PasteEvent)):
+                    # names -> bytes through the keypress boundaries of the arrivals (whole keypresses, never cut in these cases)
+                    names = [out] if isinstance(out, str) else list(out.events)
+                    pos, as_bytes = model.offset, []
+                    for nm in names:
+                        end = model.token_end.get(pos)
+                        if end is None or end - model.offset > len(model.fifo):
+                            res.label("name_mode_desynchronised")
+                            return "stop"
+                        tok = bytes(model.fifo[pos - model.offset : end - model.offset])
+                        exp = km.expected_name(tok, "utf-8", keynames)
+                        if exp is not None and nm != exp:
+                            res.viol("wrong_key_name", got=repr(nm)[:40], expected=repr(exp)[:40], token=tok.hex(), **ctx)
+                            return "stop"
+                        as_bytes.append(tok)
+                        pos = end
+                    if isinstance(out, str):
+                        out = as_bytes[0]
+                    else:
+                        out.events = as_bytes
                 # bytes: key or paste.  model.held is exact: every os.read the library makes on the stream is observed.
                 first_read = model.reads[0] if model.reads else 0
                 big = threshold is not None and first_read > threshold
@@ -504,6 +527,13 @@ def strategy():
     step = st.one_of(step, step, step, step, step, step, step, sched_race, sigint_race)
 
     def fix(case):
+        if case.get("keynames", "bytes") != "bytes":
+            # name modes: keypresses must never be cut (no bursts beyond the read size, no external reads)
+            case["steps"] = [s_ for s_ in case["steps"] if isinstance(s_, list) or s_.get("op") != "unget"]
+            big = any(len(h_.get("data") or "") > 1800 for s_ in case["steps"] if not isinstance(s_, list)
+                      for h_ in [s_] + list(s_.get("during", [])) + ([s_["inject"]["act"]] if s_.get("inject") else []))
+            if big:
+                case["keynames"] = "bytes"
         flat = []
         for s_ in case["steps"]:
             flat.extend(s_ if isinstance(s_, list) else [s_])
@@ -529,6 +559,7 @@ def strategy():
             "setup": st.sampled_from(["pipe", "pipe", "pty"]),
             "paste_threshold": st.sampled_from([None, None, 0, 1, 8, 8, 100, 2000]),
             "sigint_event": st.booleans(),
+            "keynames": st.sampled_from(["bytes", "bytes", "bytes", "curtsies", "curses"]),
             "overshoot": st.sampled_from([0.0, 0.0005, 0.0005]),
             "pre_enter_requests": st.lists(st.sampled_from([0, 0, 0.01]), max_size=2),
             "steps": st.lists(step, min_size=1, max_size=15),
